@@ -43,12 +43,16 @@ Definition fexprF (wbits old sample : Z) : Z :=
 Definition fsqrtF (x : Z) : Z := trunc_float (PrimFloat.sqrt (float_of_Z x)).
 
 Definition pickF := pick fsqrtF.
-Definition doneF := done Z 0 fexprF.
+Definition doneF := done_info Z 0 fexprF.
+Definition info_of (code flags : Z) : doneinfo :=
+  mkinfo (if code =? -1 then None else Some code) (Z.testbit flags 0) (Z.testbit flags 1) (Z.testbit flags 2) (Z.testbit flags 3).
 
 (* ---------- cases ---------- *)
 Inductive xop :=
 | XPick (draws : list Z)          (* values returned by the successive Intn calls *)
-| XDone (k : nat) (code : Z)      (* -1: nil error; otherwise grpc status code (plain error = 2 Unknown) *)
+| XDone (k : nat) (code : Z) (flags : Z)
+    (* code -1: nil error, otherwise grpc status code (plain error = 2 Unknown); flags: the rest of the DoneInfo,
+       1 BytesSent, 2 BytesReceived, 4 Trailer present, 8 ServerLoad present *)
 | XAdv (dt : Z).
 
 Record xobs := mkobs {
@@ -72,6 +76,8 @@ Record bcase := mkcase {
   c_order : list nat;       (* observed: ids of p.conns in order (iteration order of the ReadySCs map) *)
   c_addrs : list (Z * Z);   (* input: per SubConn id, key of its Address.Addr (may be shared) and of its ServerName *)
   c_connaddr : list (Z * Z);(* observed: per tracked conn, the keys of the Address it recorded *)
+  c_stat : bool;            (* verdict of the harness' statistical test on this case (>= 3 conns, random draws: the
+                               failing connection is picked markedly less often, nobody unpicked for 2 s); true if none *)
   c_steps : list (xop * xobs)
 }.
 
@@ -114,14 +120,14 @@ Fixpoint model_steps (s : st) (d : list (list Z)) (steps : list (xop * xobs)) : 
           (o_used o =? 2 * Z.of_nat used) && (o_over o =? 0) && dump_ok s' d' o && model_steps s' d' r
       | _ => false
       end
-  | (XDone k code, o) :: r =>
+  | (XDone k code flags, o) :: r =>
       let d' := apply_delta d (o_conns o) in
       match nth_error (tokens s) k with
       | Some tk =>
           match nth_error (conns s) (t_conn tk) with
           | Some c =>
               (o_conn o =? Z.of_nat (t_conn tk)) && (o_td o =? td_of (now s) c) && w_hyp_ok (o_td o) (o_wbits o) &&
-              match doneF s k (code_of code) (o_wbits o) with
+              match doneF s k (info_of code flags) (o_wbits o) with
               | Ok s' => dump_ok s' d' o && model_steps s' d' r
               | _ => false
               end
@@ -138,7 +144,7 @@ Fixpoint model_steps (s : st) (d : list (list Z)) (steps : list (xop * xobs)) : 
 Definition errpicker_steps (steps : list (xop * xobs)) : bool :=
   forallb (fun so => match fst so with
                      | XPick _ => (o_err (snd so) =? 1) && (o_id (snd so) =? -1)
-                     | XDone _ _ => false
+                     | XDone _ _ _ => false
                      | XAdv _ => true
                      end) steps.
 
@@ -199,8 +205,10 @@ Definition dump_clauses (n : nat) (t : sst) (d : list (list Z)) : bool :=
      | [] => true
      | smp => (min_l smp <=? c_lag row) && (c_lag row <=? max_l smp)
      end) &&
-    (* 500 failing completions (each a positive time after the previous completion) and no acceptable one since: unhealthy *)
-    (let f := nth i (s_fail t) 0 in if f >=? 500 then c_success row <=? 500 else true)) (seq 0 n).
+    (* f failing completions (each a positive time after the previous completion, whatever the DoneInfo flags) and no
+       acceptable one since: score <= max 0 (1000 - f) (c14_all_fail_unhealthy_within_500), hence unhealthy after 500 *)
+    (let f := nth i (s_fail t) 0 in
+     (c_success row <=? Z.max 0 (1000 - f)) && (if f >=? 500 then c_success row <=? 500 else true))) (seq 0 n).
 
 Definition healthy_obs (d : list (list Z)) (i : Z) : bool := c_success (row_of d (Z.to_nat i)) >? 500.
 
@@ -281,7 +289,8 @@ Fixpoint spec_steps (n : nat) (order : list nat) (t : sst) (steps : list (xop * 
                           (s_samples t) (s_fail t) (s_lastc t) (upd (Z.to_nat (o_id o)) (fun _ => s_now t) (s_lastp t)) in
           dump_clauses n t' dump && spec_steps n order t' r
       end
-  | (XDone k code, o) :: r =>
+  | (XDone k code _, o) :: r =>
+      (* whatever BytesSent / BytesReceived / Trailer / ServerLoad say: only the status decides the target *)
       match nth_error (s_tok t) k with
       | None => false
       | Some (i, start) =>
@@ -304,6 +313,8 @@ Fixpoint spec_steps (n : nat) (order : list nat) (t : sst) (steps : list (xop * 
 
 Definition bspec_ok (c : bcase) : bool :=
   let n := c_n c in
+  (* the probabilistic clauses, as a test with tolerance (harness/props/c14.py stat_check) *)
+  c_stat c &&
   (* every ready SubConn -- whatever Address it carries, shared or not -- is tracked by the picker, once *)
   perm_ok n (c_order c) &&
   spec_steps n (c_order c)
